@@ -125,6 +125,8 @@ impl Scenario for CtrWrap {
         };
         t.set_p("below_wrap", below);
         t.set_p("high", match rng.below(4) { 0 => 0, 1 => 1, 2 => 2, _ => 3 }); // 3 = max-1
+        // a quarter of the runs approach the SIGN boundary of the low word (2^31 / 2^63) instead of its wrap
+        t.set_p("half_word", rng.chance(1, 4) as u64);
         let _ = bits;
         let nops = rng.range(1, if tier == Tier::Thorough { 16 } else { 8 });
         let mut handles = 1u8;
@@ -158,7 +160,10 @@ impl Scenario for CtrWrap {
         let below = (t.p("below_wrap") as u128).min(word_max);
         let high: u128 = match t.p("high") { 0 => 0, 1 => 1, 2 => 2, _ => word_max - 1 };
         // low word = 2^w - below (below = 0 means low word 0, nothing to cross)
-        let low = if below == 0 { 0 } else { word_max + 1 - below };
+        let low = if below == 0 { 0 } else if t.p("half_word") == 1 { (word_max + 1) / 2 - below } else { word_max + 1 - below };
+        if below != 0 && t.p("half_word") == 1 {
+            obs.hit("fault.counter_preset_below_the_sign_boundary_of_the_low_word");
+        }
         let preset: u128 = (high << bits) | low;
         let total_mask: u128 = if bits == 32 { u64::MAX as u128 } else { u128::MAX };
         let dist = if below == 0 { 3 } else if below as usize >= 2 * b { 0 } else if below as usize > b { 1 } else if below as usize == b { 3 } else { 2 };
@@ -664,7 +669,7 @@ fn vcatalogue() -> Vec<VEntry> {
         };
     }
     vec![
-        e!("scrypt.params_largest_legal_p", vcat::scrypt_params_max_p, &[1, 2, 3, 4, 5, 6, 7, 8, 9, 10, 11, 12, 13, 15, 16, 17, 31, 33, 100, 127, 1000, 65537, 1048577, 16777215]),
+        e!("scrypt.params_largest_legal_p", vcat::scrypt_params_max_p, &[1, 2, 3, 4, 5, 6, 7, 8, 9, 10, 11, 12, 13, 15, 16, 17, 31, 33, 100, 127, 1000, 65537, 1048577, 16777215, 268435455, 268435456, 268435457, 536870912, 1073741823]),
         e!("scrypt.params_largest_legal_log_n", vcat::scrypt_params_max_log_n, &[1, 2, 3]),
         e!("argon2.setters_in_range", vcat::argon2_setters_max, &[0, 1, 2, 3, 4, 5, 6]),
         e!("hkdf.expand_exactly_255_blocks", vcat::hkdf_exact_limit, &[0, 1, 2]),
@@ -918,7 +923,9 @@ mod cat {
         } else {
             let _ = c.decrypt(&vec![0u8; first_len], &mut out[..first_len], &tag);
         }
-        // first use succeeded; the second one must be refused
+        // first use succeeded; the second one must be refused - on the object itself, or (a & 8) on a clone taken AFTER
+        // the first use: a copy of a used one-shot object is a used one-shot object
+        let mut c = if a & 8 != 0 { c.clone() } else { c };
         let second = std::panic::catch_unwind(std::panic::AssertUnwindSafe(|| {
             if a & 2 == 0 {
                 c.encrypt(&[0u8; 10], &mut out, &mut tag);
@@ -1318,7 +1325,7 @@ fn catalogue() -> Vec<Entry> {
         e!("aead_oneshot.decrypt_length_mismatch", cat::aead_oneshot_decrypt_len, FOUR),
         e!("aead_oneshot.encrypt_tag_length", cat::aead_oneshot_tag_len, &[0, 15, 17, 32]),
         e!("aead_oneshot.decrypt_tag_length", cat::aead_oneshot_decrypt_tag_len, &[0, 15, 17, 32]),
-        e!("aead_oneshot.reuse", cat::aead_oneshot_reuse, &[0, 1, 2, 3, 4, 5, 6, 7]),
+        e!("aead_oneshot.reuse", cat::aead_oneshot_reuse, &[0, 1, 2, 3, 4, 5, 6, 7, 8, 9, 10, 11, 12, 13, 14, 15]),
         e!("blake2b.dyn_output_length", cat::b2b_dyn_outlen, &[0, 65, 128]),
         e!("blake2s.dyn_output_length", cat::b2s_dyn_outlen, &[0, 33, 64]),
         e!("blake2b.bits", cat::b2b_bits, &[0, 513, 520, 1024]),
